@@ -124,3 +124,61 @@ func thmCRLF(f *Fastq) {
 	//@ assert len(g.Quals) == s && forall j int :: 0 <= j && j < s ==> g.Quals[j] == f.Quals[j]
 	_, _, _, _ = g, err, a, s
 }
+
+//@ theorem C02.readerRoundtrip2
+//@   props C02
+//@   requires f1 != nil && len(f1.Sequence) == len(f1.Quals) && f2 != nil && len(f2.Sequence) == len(f2.Quals)
+//@   requires forall j int :: 0 <= j && j < len(f1.Name) ==> f1.Name[j] != 10 && f1.Name[j] != 13
+//@   requires forall j int :: 0 <= j && j < len(f1.Sequence) ==> f1.Sequence[j] != 10 && f1.Sequence[j] != 13
+//@   requires forall j int :: 0 <= j && j < len(f1.Quals) ==> f1.Quals[j] != 10 && f1.Quals[j] != 13
+//@   requires forall j int :: 0 <= j && j < len(f2.Name) ==> f2.Name[j] != 10 && f2.Name[j] != 13
+//@   requires forall j int :: 0 <= j && j < len(f2.Sequence) ==> f2.Sequence[j] != 10 && f2.Sequence[j] != 13
+//@   requires forall j int :: 0 <= j && j < len(f2.Quals) ==> f2.Quals[j] != 10 && f2.Quals[j] != 13
+//@   loop 1
+//@     invariant n == K && (n > 0 ==> e1 == Z1[0].1 && same(g1, Z1[0].0)) && (n > 1 ==> e2 == Z1[1].1 && same(g2, Z1[1].0))
+// The same through the public API: two records written with Write are yielded
+// by Reader as exactly two items, in order, byte for byte, without an error.
+func thmReaderRoundTrip2(f1, f2 *Fastq) {
+	buf := &bytes.Buffer{}
+	f1.Write(buf)
+	f2.Write(buf)
+	a1 := len(f1.Name)
+	s1 := len(f1.Sequence)
+	b := 6 + a1 + 2*s1 // start of the second record
+	a2 := len(f2.Name)
+	s2 := len(f2.Sequence)
+	//@ assert len(buf.out) == b + 6 + a2 + 2 * s2
+	//@ assert lnT(arr(buf.out), len(buf.out), 0) == 1 + a1
+	//@ assert lnS(arr(buf.out), len(buf.out), 1) == 2 + a1 && lnT(arr(buf.out), len(buf.out), 1) == 2 + a1 + s1
+	//@ assert lnS(arr(buf.out), len(buf.out), 2) == 3 + a1 + s1 && lnT(arr(buf.out), len(buf.out), 2) == 4 + a1 + s1
+	//@ assert lnS(arr(buf.out), len(buf.out), 3) == 5 + a1 + s1 && lnT(arr(buf.out), len(buf.out), 3) == 5 + a1 + 2 * s1
+	//@ assert lnS(arr(buf.out), len(buf.out), 4) == b && lnT(arr(buf.out), len(buf.out), 4) == b + 1 + a2
+	//@ assert lnS(arr(buf.out), len(buf.out), 5) == b + 2 + a2 && lnT(arr(buf.out), len(buf.out), 5) == b + 2 + a2 + s2
+	//@ assert lnS(arr(buf.out), len(buf.out), 6) == b + 3 + a2 + s2 && lnT(arr(buf.out), len(buf.out), 6) == b + 4 + a2 + s2
+	//@ assert lnS(arr(buf.out), len(buf.out), 7) == b + 5 + a2 + s2 && lnT(arr(buf.out), len(buf.out), 7) == b + 5 + a2 + 2 * s2
+	//@ assert lnN(arr(buf.out), len(buf.out)) == 8
+	//@ assert forall k int :: 0 <= k && k < 8 ==> lnE(arr(buf.out), len(buf.out), k) == lnT(arr(buf.out), len(buf.out), k)
+	var g1, g2 *Fastq
+	var e1, e2 error
+	n := 0
+	for f, err := range Reader(buf) {
+		if n == 0 {
+			g1, e1 = f, err
+		}
+		if n == 1 {
+			g2, e2 = f, err
+		}
+		n++
+	}
+	//@ assert n >= 1 && e1 == nil
+	//@ assert n >= 2 && e2 == nil
+	//@ assert n == 2 && g1 != nil && g2 != nil
+	//@ assert len(g1.Name) == a1 && forall j int :: 0 <= j && j < a1 ==> g1.Name[j] == f1.Name[j]
+	//@ assert len(g1.Sequence) == s1 && forall j int :: 0 <= j && j < s1 ==> g1.Sequence[j] == f1.Sequence[j]
+	//@ assert len(g1.Quals) == s1 && forall j int :: 0 <= j && j < s1 ==> g1.Quals[j] == f1.Quals[j]
+	//@ assert len(g2.Name) == a2 && forall j int :: 0 <= j && j < a2 ==> g2.Name[j] == f2.Name[j]
+	//@ assert len(g2.Sequence) == s2 && forall j int :: 0 <= j && j < s2 ==> g2.Sequence[j] == f2.Sequence[j]
+	//@ assert len(g2.Quals) == s2 && forall j int :: 0 <= j && j < s2 ==> g2.Quals[j] == f2.Quals[j]
+	_, _, _, _ = g1, g2, e1, e2
+	_, _, _, _, _ = a1, s1, b, a2, s2
+}
